@@ -5,7 +5,10 @@
 (* attribute active_in_thread).  Abstract level: creating a store is one    *)
 (* atomic step TryCreate(t) that either records t as the owning thread (or  *)
 (* finds t already recorded) and succeeds, or is refused.  The owner is     *)
-(* never reset, also not when stores are closed.                            *)
+(* never reset, also not when stores are closed.  A constructor call that   *)
+(* passes the guard and then fails (inconsistent arguments, missing file,   *)
+(* a file that is not NetCDF) is TryFail(t): no store results; the code has  *)
+(* recorded t as owner before the failure and keeps it.                      *)
 (***************************************************************************)
 EXTENDS Naturals, FiniteSets, Sequences
 
@@ -29,13 +32,29 @@ TryCreate(t) ==
      THEN owner' = t /\ succ' = succ \cup {t}
      ELSE UNCHANGED <<owner, succ>>
 
+\* a constructor call that fails after the guard: same guard verdict, no
+\* store results.  The code keeps the claim it made in the guard (owner' = t);
+\* as long as no store exists the property does not care whether the claim of
+\* a failed call stays, so the specification allows it to be dropped then -
+\* but never once a store has been created.
+TryFail(t) ==
+  /\ ncalls[t] < MaxCalls
+  /\ ncalls' = [ncalls EXCEPT ![t] = @ + 1]
+  /\ IF Outcome(t, owner) = "yes"
+     THEN owner' \in (IF succ = {} THEN {t, None} ELSE {t})
+     ELSE UNCHANGED owner
+  /\ UNCHANGED succ
+FailOutcome(t, o) == IF Outcome(t, o) = "yes" THEN "failed" ELSE "no"
+
 \* closing a store does not release ownership
 Close(t) == t \in succ /\ UNCHANGED avars
 
-ANext == \E t \in Threads : TryCreate(t) \/ Close(t)
+ANext == \E t \in Threads : TryCreate(t) \/ TryFail(t) \/ Close(t)
 ASpec == AInit /\ [][ANext]_avars
 
 OneOwner == Cardinality(succ) <= 1
 OwnerIsTheOne == succ # {} => succ = {owner}
-OwnerNeverReset == [][owner # None => owner' = owner]_avars
+\* once a store exists, every other thread is refused whatever happened since
+RefusedOnceCreated == \A t \in Threads : (succ # {} /\ t \notin succ) => Outcome(t, owner) = "no"
+OwnerNeverReset == [][(owner # None /\ succ # {}) => owner' = owner]_avars
 =============================================================================
